@@ -197,7 +197,16 @@ func (c *Ctx) resolveRoles() {
 	}
 	roles := map[string]func(f *ssa.Function) bool{
 		"writeChunk": func(f *ssa.Function) bool {
-			return hasParam(f, "desync.IndexChunk") && hasParam(f, "desync.Store") && callsAll(f, "Store).GetChunk", "os.File).WriteAt")
+			// the store may be a parameter or (method of a writer struct) a field
+			return hasParam(f, "desync.IndexChunk") && callsAll(f, "Store).GetChunk", "os.File).WriteAt")
+		},
+		"sparseFileLoader.stateFromReader": func(f *ssa.Function) bool {
+			res := f.Signature.Results()
+			return res.Len() == 2 && strings.HasSuffix(res.At(0).Type().String(), "bitmap.Bitmap") && hasParam(f, "io.Reader")
+		},
+		"HTTPHandler.idFromPath": func(f *ssa.Function) bool {
+			res := f.Signature.Results()
+			return res.Len() == 2 && typeName(res.At(0).Type()) == "desync.ChunkID" && callsAll(f, "path.Join", "desync.ChunkIDFromString") && len(calls(f, suffixed("os.Stat", "os.Open"))) == 0
 		},
 		"readChunkFromFile": func(f *ssa.Function) bool {
 			return hasParam(f, "desync.IndexChunk") && hasParam(f, "os.File") && callsAll(f, "desync.NewChunkWithID")
@@ -229,7 +238,8 @@ func (c *Ctx) resolveRoles() {
 		}
 		var cands []*ssa.Function
 		for _, f := range c.Funcs {
-			if f.Pkg == c.LibSSA && f.Parent() == nil && f.Signature.Recv() == nil && pred(f) {
+			// free functions, and methods as well: "turn a function into a method of a small struct"
+			if f.Pkg == c.LibSSA && f.Parent() == nil && pred(f) {
 				cands = append(cands, f)
 			}
 		}
@@ -312,6 +322,9 @@ func callee(call ssa.CallInstruction) string {
 	}
 	if f := cc.StaticCallee(); f != nil {
 		if a, ok := funcAlias[f]; ok {
+			if n, ok := known.Callee[a]; ok {
+				return n // exactly what calls of it were called when the rules were written
+			}
 			// the name the function is known under, in the form callee names have
 			if o := f.Object(); o != nil && f.Signature.Recv() != nil {
 				full := short(o.(*types.Func).FullName()) // "(*desync.queue).acquire"
@@ -379,7 +392,7 @@ func instrsSeen(fn *ssa.Function, f func(b *ssa.BasicBlock, i int, ins ssa.Instr
 		for i, ins := range b.Instrs {
 			f(b, i, ins)
 			if ci, ok := ins.(ssa.CallInstruction); ok && len(newHelpers) > 0 {
-				if h := ci.Common().StaticCallee(); h != nil && newHelpers[h] && h.Blocks != nil {
+				if h := directCallee(ci); h != nil && newHelpers[h] && h.Blocks != nil {
 					instrsSeen(h, f, seen)
 					for _, a := range closures(h) {
 						instrsSeen(a, f, seen)
